@@ -391,6 +391,10 @@ Section Envelope.
   Definition direct_fields (sels : list selection) : list (name * name) :=
     flat_map (fun s => match s with SField a f _ => [(sel_key a f, f)] | _ => [] end) sels.
 
+  Definition keys_mergeable (kfs : list (name * name)) : bool :=
+    all_pairs (fun p q => negb (bytes_eqb (lower_bytes (fst p)) (lower_bytes (fst q))) ||
+                          (bytes_eqb (fst p) (fst q) && bytes_eqb (snd p) (snd q))) kfs.
+
   Definition has_fragment (sels : list selection) : bool :=
     existsb (fun s => match s with SField _ _ _ => false | _ => true end) sels.
 
@@ -401,8 +405,10 @@ Section Envelope.
     (* response keys begin with a letter (or are the unaliased __typename) ... *)
     forallb (fun kf => begins_with_letter (fst kf) || (is_typename (fst kf) && is_typename (snd kf)))
             (direct_fields sels) &&
-    (* ... and are distinct ignoring letter case *)
-    nodupb (map (fun kf => lower_bytes (fst kf)) (direct_fields sels)) &&
+    (* ... and are distinct ignoring letter case: two direct selections whose keys are equal
+       ignoring case have the same key and select the same field (a response key may be selected
+       more than once; the selections are merged) *)
+    keys_mergeable (direct_fields sels) &&
     (* __typename is selected wherever fragments are applied to an interface or union *)
     (negb (has_fragment sels) || is_object_type S t ||
      match first_typename sels with Some _ => true | None => false end) &&
@@ -425,8 +431,9 @@ Section Envelope.
                       end) sels.
 
   (** [P] holds of every selection set that becomes one generated struct: the selection set
-      itself, the sub-selections of its composite fields, the selections of all its inline
-      fragments on one type taken together, and the bodies of the fragments it spreads *)
+      itself, the sub-selections of all selections of one response key taken together (composite
+      fields), the selections of all its inline fragments on one type taken together, and the
+      bodies of the fragments it spreads *)
   Fixpoint all_structs (P : name -> list selection -> bool) (fuel : nat) (t : name) (sels : list selection)
     {struct fuel} : bool :=
     match fuel with
@@ -434,10 +441,11 @@ Section Envelope.
     | Datatypes.S f =>
         P t sels &&
         forallb (fun s => match s with
-                          | SField _ fn sub =>
+                          | SField a fn _ =>
                               if is_typename fn then true
                               else match field_type S t fn with
-                                   | Some ft => if composite S (unwrap ft) then all_structs P f (unwrap ft) sub else true
+                                   | Some ft => if composite S (unwrap ft)
+                                                then all_structs P f (unwrap ft) (merged_field (sel_key a fn) sels) else true
                                    | None => true
                                    end
                           | SInline c _ =>
@@ -473,7 +481,7 @@ Section Envelope.
     fold_right (fun x acc => if mem x acc then acc else x :: acc) [] l.
 
   Definition member_keys (t : name) (sels : list selection) : list name :=
-    map fst (direct_fields sels) ++
+    dedup (map fst (direct_fields sels)) ++
     dedup (flat_map (fun s => match s with SInline c _ => [inline_cond t c] | _ => [] end) sels) ++
     dedup (flat_map (fun s => match s with SSpread n _ _ => [n] | _ => [] end) sels).
 
@@ -622,6 +630,52 @@ Definition excl_decl_clash (S : schema) (d : document) : bool :=
   | GOk p => negb (decl_names_ok p && program_syntax_ok p && forallb (fun dfn => idents_ok (td_type dfn)) (p_defs p))
   | _ => false
   end.
+
+(** A condition on the NAMES of the schema and the document only (no generator run) that is meant
+    to imply [excl_decl_clash S d = false]; it is conservative (it looks at all enums and all
+    composite types of the schema, used or not).  The implication
+      [decl_safe S d = true -> excl_decl_clash S d = false]
+    is NOT proved yet (it needs an invariant on the generator's struct counter); the correspondence
+    check evaluates it on every case (verdict bad-case "decl-safe-does-not-exclude-clash"). *)
+Fixpoint starts_with (pre s : bytes) : bool :=
+  match pre, s with
+  | [], _ => true
+  | a :: p', b :: s' => (a =? b) && starts_with p' s'
+  | _ :: _, [] => false
+  end.
+
+Definition ends_with_digit (s : bytes) : bool :=
+  match rev s with c :: _ => is_digit c | [] => false end.
+
+Fixpoint sel_keys (s : selection) : list name :=
+  match s with
+  | SField a f sub => sel_key a f :: flat_map sel_keys sub
+  | SInline _ sub => flat_map sel_keys sub
+  | SSpread _ _ _ => []          (* the body is the fragment definition, visited on its own *)
+  end.
+
+Definition decl_safe (S : schema) (d : document) : bool :=
+  let enums := flat_map (fun t => match t with DEnum n vs => [(n, vs)] | _ => [] end) (s_types S) in
+  let composites := flat_map (fun t => match t with
+                                       | DObj n _ _ | DIface n _ | DUnion n _ => [n]
+                                       | _ => []
+                                       end) (s_types S) in
+  let frag_names := map fr_name (d_frags d) in
+  let declared :=
+    map fst enums ++ flat_map (fun e : name * list name => map (enum_const (fst e)) (snd e)) enums ++
+    flat_map (fun o => match op_name o with Some n => [data_type_name n] | None => [] end) (d_ops d) ++
+    map frag_type_name frag_names in
+  let keys := flat_map (fun o => flat_map sel_keys (op_sels o)) (d_ops d) ++
+              flat_map (fun f => flat_map sel_keys (fr_sels f)) (d_frags d) in
+  (* enum types, enum constants, <Op>Data, <F>Fragment: pairwise distinct usable identifiers ... *)
+  nodupb declared && forallb go_ident_ok declared &&
+  (* ... that cannot coincide with a sel<T><n> type or with the json import *)
+  forallb (fun n => negb (starts_with (bs "sel") n)) declared && negb (mem (bs "json") declared) &&
+  (* sel<T1><n1> = sel<T2><n2> needs a type name that ends in a digit *)
+  forallb (fun t => negb (ends_with_digit t)) composites &&
+  (* struct fields: of fragments (named after the type condition / the fragment) and of response keys *)
+  forallb (fun n => go_ident_ok (field_name n) && negb (starts_with (bs "__") n)) (composites ++ frag_names) &&
+  forallb (fun k => go_ident_ok (field_name k)) keys.
 
 (** ** Responses shaped by an operation *)
 Inductive rv :=
